@@ -135,6 +135,9 @@ def run(ctx):
         ref = handlers_agree(ctx, text, hb.DRoot, XmlContext(), {"key": text}, tags_native_tree=["F14"] if exp.own is not None else [])
         if ref is not None and ref[1] != exp:
             ctx.violation(f"default-namespace document parses to {ref[1]!r}, expected {exp!r}", {"text": text})
+    # documents split with XInclude, handed over as path string (with and without a base URL) and as pathlib.Path: both
+    # handlers, the object of the inline document
+    c09.xinclude_text(ctx)
     ctx.exhaustive = True
     # writer behaviours on both real writers
     res = ctx.tlc("MC_Writer", "run.cfg", workers=1, extra_files={"run.cfg": writer_cfg("gen", depth=2, events=5, attrs=1)},
